@@ -72,6 +72,7 @@ type Ctx struct {
 
 	trusted map[string]bool // trusted-base items used
 	usedFieldInv map[*FieldInv]bool
+	baseAlloc    map[int]Term // allocation bound at the start of each heap epoch
 	heapAlias    map[string]Term
 	slice        *sliceIndex
 	notes   []string
@@ -92,7 +93,7 @@ func newCtx(w *World, fn string, mode ArithMode) *Ctx {
 	c := &Ctx{W: w, Mode: mode, FuncName: fn,
 		declKeys: map[string]bool{}, oblCount: map[string]int{}, structs: map[string]string{},
 		strLits: map[string]string{}, specDone: map[string]bool{}, heapSorts: map[string]heapInfo{},
-		typeTags: map[string]int{}, trusted: map[string]bool{}, usedFieldInv: map[*FieldInv]bool{}, heapAlias: map[string]Term{}}
+		typeTags: map[string]int{}, trusted: map[string]bool{}, usedFieldInv: map[*FieldInv]bool{}, baseAlloc: map[int]Term{}, heapAlias: map[string]Term{}}
 	c.prelude()
 	return c
 }
@@ -651,6 +652,48 @@ func (c *Ctx) heapConst(name string, key string) Term {
 	return Term{name, info.sort}
 }
 
+// heapEpochConst is the heap of an epoch (the entry state, or the state after a havoc of everything).
+// Besides the type invariants it is closed under the allocation bound of the epoch: every reference
+// stored in it denotes an object that existed when the epoch began.
+func (c *Ctx) heapEpochConst(base int, key string) Term {
+	name := fmt.Sprintf("H%d.%s", base, sanitizeSym(key))
+	fresh := !c.declKeys["const:"+name]
+	h := c.heapConst(name, key)
+	if fresh {
+		bound := "alloc0"
+		if base != 0 {
+			b, ok := c.baseAlloc[base]
+			if !ok {
+				return h
+			}
+			bound = b.S
+		}
+		info := c.heapSorts[key]
+		if info.ty == nil {
+			return h
+		}
+		sel := fmt.Sprintf("(select %s r)", h.S)
+		bind := "((r Int))"
+		if info.two {
+			sel = fmt.Sprintf("(select (select %s r) i)", h.S)
+			bind = fmt.Sprintf("((r Int) (i %s))", c.idxSort())
+		}
+		if isTimeTime(info.ty) {
+			return h
+		}
+		if _, op := opaqueNamed(info.ty); op {
+			return h
+		}
+		switch info.ty.Underlying().(type) {
+		case *types.Pointer, *types.Map, *types.Chan, *types.Interface, *types.Signature:
+			c.decl("wfclosed:"+h.S, fmt.Sprintf("(assert (forall %s (! (< %s %s) :pattern (%s))))", bind, sel, bound, sel))
+		case *types.Slice:
+			c.decl("wfclosed:"+h.S, fmt.Sprintf("(assert (forall %s (! (< (s.arr %s) %s) :pattern (%s))))", bind, sel, bound, sel))
+		}
+	}
+	return h
+}
+
 // heapWF asserts type invariants of every cell of a heap array (Int mode ranges, slice shapes).
 func (c *Ctx) heapWF(h Term, info heapInfo) {
 	if info.ty == nil {
@@ -692,13 +735,13 @@ func (c *Ctx) heapGet(st *State, key string) Term {
 		vals := make([]Term, len(st.alts))
 		for i, a := range st.alts {
 			conds[i] = a.cond
-			vals[i] = c.heapConst(fmt.Sprintf("H%d.%s", a.base, sanitizeSym(key)), key)
+			vals[i] = c.heapEpochConst(a.base, key)
 		}
 		t := c.define("mH."+key, iteChain(conds, vals))
 		st.heaps[key] = t
 		return t
 	}
-	return c.heapConst(fmt.Sprintf("H%d.%s", st.base, sanitizeSym(key)), key)
+	return c.heapEpochConst(st.base, key)
 }
 
 func (c *Ctx) heapSet(st *State, key string, v Term) {
@@ -713,6 +756,11 @@ func (c *Ctx) heapHavoc(st *State, key string) {
 func (c *Ctx) heapHavocAll(st *State) {
 	c.fresh++
 	st.base = c.fresh
+	// whatever changed the heap may also have allocated; the new epoch's allocation bound
+	na := c.freshConst("alloc.e", SInt)
+	c.assume(T(SBool, "(>= %s %s)", na.S, st.alloc.S))
+	st.alloc = na
+	c.baseAlloc[st.base] = na
 	st.alts = nil
 	st.heaps = map[string]Term{}
 }
